@@ -124,6 +124,9 @@ func TestSim(t *testing.T) {
 			}
 			minimised[sig] = true
 			plan := rr.Plan
+			if v.Plan != nil {
+				plan = *v.Plan
+			}
 			if gd := os.Getenv("GODEBUG"); gd != "" {
 				plan.Env = map[string]string{"GODEBUG": gd}
 			}
